@@ -407,6 +407,8 @@ func (g *ctxGen) gen() *hcl.EvalContext {
 	v["mk_map"] = g.strMap(0).Mark("m3")
 	v["mk_ulist"] = cty.UnknownVal(cty.List(cty.String)).Mark("m4")
 	v["mk_str"] = g.str().Mark("m5")
+	v["sh_o"] = shadowOuter
+	v["sh_i"] = shadowInner
 	v["nul_list"] = cty.NullVal(cty.List(cty.String))
 	v["nul_dyn"] = cty.NullVal(cty.DynamicPseudoType)
 	v["nul_str"] = cty.NullVal(cty.String)
@@ -840,6 +842,12 @@ func (c *genCase) text() string {
 func generate(r *hv.Rng) *genCase {
 	cg := &ctxGen{r: r}
 	ectx := cg.gen()
+	if r.Chance(0.12) {
+		feat := map[string]int{}
+		spec, items := genShadow(r, feat)
+		feat["ctx:same"]++
+		return &genCase{Spec: spec, Items: items, ECtx: ectx, DCtx: ectx, Feat: feat}
+	}
 	g := &bodyGen{r: r, cg: cg, feat: map[string]int{}, maxD: 1 + r.Intn(3), clean: r.Chance(0.5)}
 	if g.clean {
 		g.f("mode:clean")
@@ -873,4 +881,152 @@ func sortedFeat(m map[string]int) []string {
 	}
 	sort.Strings(ks)
 	return ks
+}
+
+// ---- the shadowed-ancestor shape ------------------------------------------------------------------
+// Three or four levels of dynamic nesting in which two ENCLOSING dynamic blocks share an
+// iterator name (explicit `iterator =` on both, or the same block type nested in itself
+// with default names) and a dynamic block below the inner one, with another iterator
+// name, refers to the shared name in an attribute, its for_each or a label: it must see
+// the NEAREST iteration of that name.  The two collections have keys of different types
+// (strings vs indices), so the outermost and the nearest binding never coincide.
+
+var shadowOuter = cty.MapVal(map[string]cty.Value{"oa": cty.StringVal("OA"), "ob": cty.StringVal("OB")})
+var shadowInner = cty.ListVal([]cty.Value{
+	cty.ObjectVal(map[string]cty.Value{"k": cty.StringVal("K0"), "v": cty.ListVal([]cty.Value{cty.StringVal("v00"), cty.StringVal("v01")})}),
+	cty.ObjectVal(map[string]cty.Value{"k": cty.StringVal("K1"), "v": cty.ListVal([]cty.Value{cty.StringVal("v10")})}),
+})
+
+type shadowLevel struct {
+	Type   string
+	Iter   string // "" = default
+	Shared bool
+}
+
+func genShadow(r *hv.Rng, feat map[string]int) (*specNode, []gItem) {
+	sameType := r.Chance(0.5)
+	var levels []shadowLevel
+	shape := r.Intn(8) // 0-5: three levels; 6: S S o o; 7: S o S o
+	shared := "it"
+	S := func(t string) shadowLevel {
+		if sameType {
+			return shadowLevel{"a", "", true}
+		}
+		return shadowLevel{t, "it", true}
+	}
+	O := func(t string) shadowLevel {
+		it := ""
+		if r.Chance(0.5) {
+			it = []string{"x", "y", "each"}[r.Intn(3)]
+		}
+		return shadowLevel{t, it, false}
+	}
+	if sameType {
+		shared = "a"
+	}
+	switch {
+	case shape < 6:
+		levels = []shadowLevel{S("a"), S("b"), O("c")}
+		feat["shape:shadowed-ancestor:3-levels"]++
+	case shape == 6:
+		levels = []shadowLevel{S("a"), S("b"), O("c"), O("d")}
+		feat["shape:shadowed-ancestor:4-levels(SSoo)"]++
+	default:
+		levels = []shadowLevel{S("a"), O("b"), S("c"), O("d")}
+		feat["shape:shadowed-ancestor:4-levels(SoSo)"]++
+	}
+	feat["shape:shadowed-ancestor"]++
+	if sameType {
+		feat["shape:shadowed-ancestor:same-block-type"]++
+	} else {
+		feat["shape:shadowed-ancestor:explicit-iterator"]++
+	}
+	ref := "«" + shared + "»"
+	// which shared level is the nearest one for level i (index of the last shared level above i)
+	sharedSeen := 0
+	// build from the innermost level outwards
+	type built struct {
+		spec  *specNode
+		items []gItem
+	}
+	n := len(levels)
+	// number of shared levels above each level
+	above := make([]int, n)
+	for i, l := range levels {
+		above[i] = sharedSeen
+		if l.Shared {
+			sharedSeen++
+		}
+	}
+	var inner built
+	for i := n - 1; i >= 0; i-- {
+		l := levels[i]
+		node := &specNode{Attrs: []attrDef{{"p", cty.String, false}, {"q", cty.String, false}}}
+		d := &gDyn{Type: l.Type, Iterator: l.Iter}
+		kind := kList
+		var labelNames []string
+		switch {
+		case l.Shared && above[i] == 0:
+			d.ForEach = "sh_o"
+			d.Content = []gItem{{Attr: &gAttr{"p", ref + ".key"}}}
+		case l.Shared:
+			d.ForEach = "sh_i"
+			d.Content = []gItem{{Attr: &gAttr{"p", `"${` + ref + `.key}:${` + ref + `.value.k}"`}}}
+		case above[i] >= 2:
+			// below two enclosing blocks of the shared name: refer to it
+			own := "«" + d.iterName() + "»"
+			d.ForEach = `["p", "q"]`
+			uses := 0
+			if r.Chance(0.5) {
+				d.ForEach = ref + ".value.v"
+				feat["shape:shadowed-ancestor:ref-in-for_each"]++
+				uses++
+			}
+			if r.Chance(0.4) {
+				kind = kMap
+				labelNames = []string{"key"}
+				d.Labels = []string{`"${` + ref + `.key}-${` + own + `.key}"`}
+				feat["shape:shadowed-ancestor:ref-in-label"]++
+				uses++
+			}
+			if uses == 0 || r.Chance(0.6) {
+				d.Content = append(d.Content, gItem{Attr: &gAttr{"p", r.Pick(ref+".key", ref+".value.k", `"${`+ref+`.key}/${`+own+`.value}"`)}})
+				feat["shape:shadowed-ancestor:ref-in-attribute"]++
+			}
+			d.Content = append(d.Content, gItem{Attr: &gAttr{"q", own + ".value"}})
+		default:
+			// a level of another name between / above: plain
+			own := "«" + d.iterName() + "»"
+			d.ForEach = `["m", "n"]`
+			d.Content = []gItem{{Attr: &gAttr{"q", own + ".value"}}}
+			if above[i] >= 1 {
+				d.Content = append(d.Content, gItem{Attr: &gAttr{"p", ref + ".key"}})
+			}
+		}
+		if inner.spec != nil {
+			node.Blocks = inner.spec.Blocks
+			d.Content = append(d.Content, inner.items...)
+			if r.Chance(0.3) {
+				// a static block of the same type next to the generated ones
+				d.Content = append(d.Content, gItem{Block: &gBlock{Type: levels[i+1].Type, Labels: staticLabels(inner.spec.Blocks[0]), Body: []gItem{{Attr: &gAttr{"q", `"static"`}}}}})
+			}
+		}
+		outer := &specNode{Blocks: []blockDef{{l.Type, kind, labelNames, node}}}
+		inner = built{outer, []gItem{{Dyn: d}}}
+	}
+	top := inner.spec
+	top.Attrs = []attrDef{{"p", cty.String, false}}
+	items := inner.items
+	if r.Chance(0.5) {
+		items = append([]gItem{{Block: &gBlock{Type: levels[0].Type, Body: []gItem{{Attr: &gAttr{"q", `"s"`}}}}}}, items...)
+	}
+	return top, items
+}
+
+func staticLabels(b blockDef) []string {
+	var ls []string
+	for range b.LabelNames {
+		ls = append(ls, "sl")
+	}
+	return ls
 }
